@@ -25,8 +25,9 @@ def shard_cases(lines, target_bytes=110000):
     return shards
 
 
-def eval_cases(ctx, outdir, lines, built, tag):
-    """returns (list of (case index, model outcome, model tree) mismatches, number of shards, ok shards)"""
+def eval_cases(ctx, outdir, lines, built, tag, classes=None):
+    """returns (list of (case index, model outcome, model tree) mismatches, number of shards, ok shards).
+    If `classes` is a dict it is filled with {case index: model's in_F8 bit}."""
     from driver import coq_values, parse_term
     shards = shard_cases(lines)
     files = {}
@@ -36,6 +37,8 @@ def eval_cases(ctx, outdir, lines, built, tag):
             f.write(HDR)
             f.write("Definition cs : list scase := [\n" + ";\n".join(ln for _, ln in sh) + "].\n")
             f.write("Eval vm_compute in smismatches cs.\n")
+            if classes is not None:
+                f.write("Eval vm_compute in f8_bits cs.\n")
         files[vf] = sh
     if not built:
         ctx.disagreements.append({"what": "Coq development does not build; correspondence not evaluated"})
@@ -50,13 +53,16 @@ def eval_cases(ctx, outdir, lines, built, tag):
                                       "cases": [i for i, _ in sh][:3], "output": o[-800:]})
             continue
         vals = coq_values(o)
-        if len(vals) != 1:
+        if len(vals) != (2 if classes is not None else 1):
             ctx.disagreements.append({"what": "unparsable shard output", "shard": os.path.basename(vf), "output": o[-600:]})
             continue
         ok += 1
         for item in parse_term(vals[0]):
             (j, outcome, tree) = item
             mism.append((sh[j][0], outcome, tree))
+        if classes is not None:
+            for j, b in enumerate(parse_term(vals[1])):
+                classes[sh[j][0]] = bool(b)
     return mism, len(shards), ok
 
 
